@@ -3,6 +3,7 @@ package main
 import (
 	"encoding/hex"
 	"fmt"
+	"io"
 	"math"
 	"strconv"
 	"strings"
@@ -124,7 +125,11 @@ func runCborEnc(payload string) string {
 		return "harness-error " + err.Error()
 	}
 	w := &chunkWriter{}
-	enc := cbor.NewEncoder(w)
+	var dst io.Writer = w
+	if len(payload)%2 == 1 {
+		dst = struct{ io.Writer }{w} // a writer without WriteString: the encoder's other way of writing strings
+	}
+	enc := cbor.NewEncoder(dst)
 	poisonSink(enc)
 	w.buf, w.chunks = nil, nil
 	class, used := driveSink(enc, ts)
